@@ -10,6 +10,8 @@ def _parts(res):
 def plugin_nontrivial(tok, res):
     if tok[0] == "site":
         return res.startswith("L=") and "," in res
+    if tok[0] == "sess":      # a session that stopped at least two proxies with a CloseProxy plugin listening
+        return res.startswith("L=ok") and res.count("CloseProxy:") >= 2 and res.count("ok:") >= 2
     if tok[0] != "call":
         return False
     kind, n = _parts(res)
@@ -17,6 +19,10 @@ def plugin_nontrivial(tok, res):
 
 
 def plugin_class(res):
+    if res.startswith("L=") and ";S=" in res:
+        r, _, w = res.partition(" | ")
+        n = w.count("CloseProxy:")
+        return "%s;registered=%d;close-requests=%s" % (r[:4], r.count("ok:"), n if n < 4 else "4+")
     if res.startswith("L="):
         import re
         r = res.partition(" | ")[0]
@@ -40,6 +46,11 @@ PROP = {
             "Frp.C15.holdsOn_sound", "Frp.C15.model_spec", "Frp.C15.manager_spec",
             "Frp.C15.manager_close_spec", "Frp.C15.closeHoldsOn_sound", "Frp.C15.model_closeHoldsOn",
             "Frp.C15.notified_eq_stopped", "Frp.C15.session_end_stops_all",
+            "Frp.C15.notifyGo_spec", "Frp.C15.sessP_erase", "Frp.C15.sessP_notes",
+            "Frp.C15.notify_all_schedules", "Frp.C15.every_stop_reaches_every_plugin",
+            "Frp.C15.notify_chain_order", "Frp.C15.notes_handler_independent",
+            "Frp.C15.notifyHoldsOn_sound", "Frp.C15.model_notifyHoldsOn",
+            "Frp.ListW.Interleave.perm", "Frp.ListW.Interleave.sublist", "Frp.ListW.Interleave.sequential",
             "Frp.C15.errMsg_ne_nil", "Frp.C15.empty_error_only_from_empty_reason",
             "Frp.C15.refusal_reported_witness", "Frp.C15.refusal_reported", "Frp.C15.refusal_reported_partial",
         ],
@@ -49,8 +60,12 @@ PROP = {
         ],
         "rule": "plugin engine: generated chains of 0..8 registered plugins (stub Plugin implementations and real "
                 "httpPlugin instances against a scripted HTTP server), any op subset each, followed by calls of all six "
-                "Manager methods; a case is non-trivial when at least two plugins were consulted or the operation was "
-                "refused / panicked; distinct = distinct (op line, result) pairs. op_distribution keys are "
+                "Manager methods; on chains of real httpPlugins additionally `site` (one proxy through every gated call site of a "
+                "real frps) and `sess` (one session of a real frps with 0..5 proxies over a small name pool: collisions, explicit "
+                "closes by literal / answered name, double closes, re-registration, then session end; plugins that fail always or "
+                "for some proxy names only); a case is non-trivial when at least two plugins were consulted or the operation was "
+                "refused / panicked (call), the scenario got past the login (site), at least two proxies were stopped with a "
+                "CloseProxy plugin listening (sess); distinct = distinct (op line, result) pairs. op_distribution keys are "
                 "<line kind>:<result kind>/<number of Handle calls made>",
         "trusted": COMMON_TRUST + [
             "model Frp/Model/PluginChain.lean written by hand from pkg/plugin/server/{manager,http,plugin,types}.go; tied by the "
@@ -62,6 +77,10 @@ PROP = {
             "proxy.go handleUserTCPConnection) are tied by the `site` lines (scenario model in Frp/Engines/Plugin.lean `siteExpected`, "
             "built from the proved `gated`/`closeAll`; the scenario function itself carries no theorem); where the server may still "
             "refuse after the plugins passed (token check, proxy registration, visitor admission) the observed outcome is taken over",
+            "the close notifications of a whole session (control.go CloseProxy + worker: one goroutine per stopped proxy) are tied by the "
+            "`sess` lines: bookkeeping and goroutines are the proved `SessP` (Frp/Model/PluginChain.lean), the CloseProxy requests the "
+            "plugin server received are judged by `C15.notifyHoldsOn` (a permutation of: every stopped proxy x every registered plugin); "
+            "the harness waits for the expected number of requests for at most 1 s (a notification later than that counts as missing)",
         ],
         "assumptions": [
             "stub plugins obey the interface contract (non-nil *Response when err == nil)",
@@ -74,7 +93,7 @@ META = {
         "engine": "lean+harness(plugin)",
         "design_ref": "DESIGN.md §6 C15",
         "technique": "Lean 4 proofs by induction over the plugin chain for arbitrary handler functions; differential correspondence with the real plugin.Manager and httpPlugin",
-        "text": "Proof: for every list of registered plugins (any supported-op sets, any handler functions that may depend on the content they are handed), every operation and content, the modelled manager method consults exactly the plugins registered for that operation, in registration order, each on the left-to-right composition of the earlier modifications, up to and including the first one that errors / rejects / returns unusable content, nobody after it; it returns ok iff every one of them passed, and then the content is the composition; transport error, non-200, unreadable or unparsable body make Handle fail and hence the operation is refused; CloseProxy notifies every registered plugin with the original content even when earlier ones fail; at the session level every proxy stopped by CloseProxy or by session end is notified exactly once. Kernel-checked, axioms propext/Classical.choice/Quot.sound only. The hand-written model is tied to the code by replaying 30k (quick) generated operations per run on the real Manager (stubs + real httpPlugin over loopback HTTP) and on the model, with the Lean predicate evaluated on the implementation's own results.",
+        "text": "Proof: for every list of registered plugins (any supported-op sets, any handler functions that may depend on the content they are handed), every operation and content, the modelled manager method consults exactly the plugins registered for that operation, in registration order, each on the left-to-right composition of the earlier modifications, up to and including the first one that errors / rejects / returns unusable content, nobody after it; it returns ok iff every one of them passed, and then the content is the composition; transport error, non-200, unreadable or unparsable body make Handle fail and hence the operation is refused; CloseProxy notifies every registered plugin with the original content even when earlier ones fail; at the session level every proxy stopped by CloseProxy or by session end is notified exactly once, and with the chain attached (one notification goroutine per stopped proxy, modelled as the code starts them): for every session history, every chain and all handler functions, every order in which the session end ranges over its proxies and every interleaving of the goroutines, the Handle(CloseProxy) calls received are a permutation of {stopped proxy} x {plugin registered for CloseProxy} (nothing lost behind a failing plugin or a failed notification, nothing twice) and each notification calls the chain in order. Kernel-checked, axioms propext/Classical.choice/Quot.sound only. The hand-written model is tied to the code by replaying 14k (quick) generated operations per run (incl. ~650 one-proxy call-site scenarios and ~600 multi-proxy session scenarios against a real frps) on the real Manager (stubs + real httpPlugin over loopback HTTP) and on the model, with the Lean predicate evaluated on the implementation's own results.",
         "known_finding": "C15-empty-reject-reason: reject with reject_reason \"\" is refused server-side but reported to the peer as success (LoginResp/NewProxyResp/Pong/StartWorkConn.Error empty). Minimal repair: in util.GenerateResponseErrorString fall back to the summary when err.Error() is empty (or give Manager a default reject reason).",
         "note": "Trusted: Lean kernel; the hand-written model of manager.go/http.go; the harness generators and its scripted HTTP server. Observations kept faithful in the model: a 200 reply without `unchange` (e.g. `{}` or `null`) is accepted and replaces the content by the zero value; `\"content\": null` with unchange=false panics in the manager's type assertion (the goroutine is not recovered at the call sites); handleUserTCPConnection discards the content returned by NewUserConn; NewUserConn is only hooked for listener-based proxies (tcp, stcp, https, tcpmux), not for http / udp.",
     }
